@@ -778,7 +778,8 @@ class FitBase(FileIOMixin, object):
         """The chi2 probability for the current model values."""
         _cost = self.cost_function_value
         if self._cost_function.add_determinant_cost:
-            _cost -= self._nexus.get("total_cov_mat_log_determinant").value
+            # subtract the determinant term that the cost function actually added (its last argument)
+            _cost -= self._nexus.get(self._cost_function.arg_names[-1]).value
         return self._cost_function.chi2_probability(_cost, self.ndf)
 
     @property
